@@ -138,7 +138,19 @@ func (s *Server) listObjectVersionsHandler(w http.ResponseWriter, r *http.Reques
 		CommonPrefixes:      []*CommonPrefixResult{},
 	}
 
+	// Filter the listed keys and common prefixes through the per-item list hook,
+	// exactly like ListObjects does: a key hidden from ListObjects must not show
+	// up (with its version ids, sizes and ETags) in the version listing.
+	baseRequest, _ := makeAuthorizationRequest(ctx, authorization.OperationListObjectVersions, ptrutils.ToPtr(bucketName.String()), nil, r)
 	for _, version := range result.Versions {
+		allowed, err := s.authorizeListObject(ctx, baseRequest, version.Key.String(), nil)
+		if err != nil {
+			handleError(err, w, r)
+			return
+		}
+		if !allowed {
+			continue
+		}
 		if version.IsDeleteMarker {
 			response.DeleteMarkers = append(response.DeleteMarkers, &DeleteMarkerVersionEntry{Key: version.Key.String(), VersionID: version.VersionID, IsLatest: version.IsLatest, LastModified: version.LastModified.UTC().Format(time.RFC3339)})
 		} else {
@@ -150,6 +162,14 @@ func (s *Server) listObjectVersionsHandler(w http.ResponseWriter, r *http.Reques
 		}
 	}
 	for _, commonPrefix := range result.CommonPrefixes {
+		allowed, err := s.authorizeListObject(ctx, baseRequest, commonPrefix, nil)
+		if err != nil {
+			handleError(err, w, r)
+			return
+		}
+		if !allowed {
+			continue
+		}
 		response.CommonPrefixes = append(response.CommonPrefixes, &CommonPrefixResult{Prefix: commonPrefix})
 	}
 
